@@ -503,6 +503,11 @@ func (v *VM[I, O, A]) buildBlock(ctx context.Context, blockCtx *block.Context) (
 	if err != nil {
 		return nil, fmt.Errorf("failed to get preferred block %s to build: %w", v.preferredBlkID, err)
 	}
+	// An unverified preference (vacuously verified during dynamic state sync, or one that failed
+	// re-verification afterwards) has no output to build on.
+	if !v.ready || !preferredBlk.verified {
+		return nil, fmt.Errorf("cannot build on unverified preferred block %s (ready = %t)", preferredBlk, v.ready)
+	}
 	inputBlock, outputBlock, err := v.chain.BuildBlock(ctx, blockCtx, preferredBlk.Output)
 	if err != nil {
 		return nil, err
